@@ -29,7 +29,7 @@ import re as _re
 # D16: Polars' horizontal min/max returns a length-1 series for columns that originate from literals or
 # from join padding (reproduced in pure Polars, see DESIGN section 4 D16)
 ENGINE_BUG_RE = _re.compile(
-    r"_horizontal\(.*to be broadcasted, ensure it is a scalar|sort expressions must have same length as DataFrame"
+    r"_horizontal\(.*to be broadcasted, ensure it is a scalar|expression: \[\(\S+\) [=!<>]+ \(.*to be broadcasted, ensure it is a scalar|sort expressions must have same length as DataFrame"
     r"|output length of `map` \(1\) must be equal to the input length.*_horizontal\(", _re.S
 )
 
@@ -57,6 +57,8 @@ def polars_horizontal_bug_applies(prog, where):
         for n in kf.walk(st):
             if n.get("k") == "fn" and n["op"] in ("hmax", "hmin"):
                 has_h = True
+            if literal_left_comparison(n):
+                has_h = True  # fifth trigger: `lit <cmp> scalar column` is a length-1 series, too
         if st["verb"] == "mutate" and any(not kf.has_col(e) for _n, e in st["kw"]):
             trigger = True
         if st["verb"] == "mutate" and any(n.get("k") == "fn" and n["op"] in kf.AGG and not n.get("pb") for n in kf.walk(st["kw"])):
@@ -66,6 +68,30 @@ def polars_horizontal_bug_applies(prog, where):
         if st["verb"] == "join":
             trigger = True  # padded rows (outer joins) and runs of one operand row matched several times
     return has_h and trigger
+
+
+def literal_left_comparison(n):
+    """D16 (fifth trigger, node feature): a comparison whose LEFT operand is a literal and whose right operand
+    contains a column.  When that column is a scalar column for Polars (constant column, unpartitioned aggregate
+    in mutate), `pl.lit(a) == pl.col(c)` evaluates to a length-1 series: a ShapeError at top level, a wrong
+    aggregate below `.over()` (pure-Polars reproduction in notes/polars_bugs.py); `pl.col(c) == pl.lit(a)` is
+    right."""
+    from . import kf
+
+    return (
+        isinstance(n, dict)
+        and n.get("k") == "fn"
+        and n.get("op") in ("eq", "ne", "lt", "le", "gt", "ge")
+        and len(n.get("a") or ()) == 2
+        and not kf.has_col(n["a"][0])
+        and kf.has_col(n["a"][1])
+    )
+
+
+def has_literal_left_comparison(prog):
+    from . import kf
+
+    return any(literal_left_comparison(n) for st in prog["steps"] for n in kf.walk(st))
 
 
 def has_literal_case_under_operator(prog):
@@ -446,7 +472,7 @@ def run_program(prog, backends=("pol", "sqlite"), opts=None, be_cache=None) -> O
                 if be == "pol" and type(exp_exc).__name__ == "PanicException" and "JoinType::Cross" in str(exp_exc):
                     out.excluded[be] = "D20"  # Polars panics for an equi-join that uses one key column twice
                     continue
-                if be == "pol" and ENGINE_BUG_RE.search(str(exp_exc)) and _has_horizontal(prog):
+                if be == "pol" and ENGINE_BUG_RE.search(str(exp_exc)) and (_has_horizontal(prog) or has_literal_left_comparison(prog)):
                     # D16: a Polars optimizer bug (reproduced without pydiverse.transform, correct with
                     # optimizations off): horizontal min/max with a literal over join-padded columns
                     out.excluded[be] = "D16"
